@@ -184,6 +184,8 @@ class C12(Prop):
         return case['text'] if 'text' in case else 'query %r/%d' % (case['query'], case['arity'])
 
     def shrink_candidates(self, case):
+        if 'text' not in case:
+            return
         # clauses are separated by ".\n" only where we put it; hostile atoms may contain newlines, so split on ".\n" + known starts
         parts = re.split(r"(?<=\.)\n(?=[a-z']|$)", case['text'])
         parts = [p for p in parts if p]
@@ -191,6 +193,8 @@ class C12(Prop):
             yield dict(case, text='\n'.join(parts[:i] + parts[i + 1:]) + '\n')
 
     def decide(self, case):
+        if 'query' in case and 'text' not in case:
+            return self.decide_runtime(case)
         text = case['text']
         classes = sorted(set(case.get('positions', [])))
         try:
@@ -310,6 +314,39 @@ class C12(Prop):
                         out.append((case, self.decide(case)))
         return out
 
+    def decide_runtime(self, case, yp0=None):
+        """one entry of the run-time table: a query for name/arity that no program defines must find nothing, call
+        nothing and change nothing"""
+        name, arity = case['query'], case['arity']
+        yp0 = yp0 or impl.YP()
+        called = []
+        yp = impl.BudgetYP(200)
+        yp.load_script_from_string(impl.compile_text('p(a).\nq(X) :- p(X).\n'))
+        yp.assert_fact(yp.atom('fact'), [yp.atom('k')])
+        for key in list(yp.eval_context):
+            if key in API_CALLABLES and key != 'query' and key != 'match_dynamic':
+                orig = yp.eval_context[key]
+                yp.eval_context[key] = (lambda o, k: (lambda *a, **kw: (called.append(k), o(*a, **kw))[1]))(orig, key)
+        yp.eval_context['canary'] = lambda *a, **k: (called.append('canary'), iter(()))[1]
+        ctx_before = dict(yp.eval_context)
+        facts_before = {k: len(v) for k, v in yp._predicates_store.items()}
+        args = [yp.atom('k') if i == 0 else yp.variable() for i in range(arity)]
+        try:
+            answers = 0
+            for _ in yp.query(name, args):
+                answers += 1
+                if answers > 3:
+                    break
+        except Exception as e:      # noqa
+            return FAIL('runtime-query-raises:' + type(e).__name__, {'query': '%r/%d' % (name, arity), 'error': '%s: %s' % (type(e).__name__, e)})
+        if answers:
+            return FAIL('runtime-query-has-answers', {'query': '%r/%d' % (name, arity), 'answers': answers})
+        if called:
+            return FAIL('runtime-query-reached-api', {'query': '%r/%d' % (name, arity), 'called': called[:5]})
+        if dict(yp.eval_context) != ctx_before or {k: len(v) for k, v in yp._predicates_store.items()} != facts_before:
+            return FAIL('runtime-query-changed-engine-state', {'query': '%r/%d' % (name, arity)})
+        return OK(name in yp0.eval_context or name in dir(yp0), ['runtime-table'])
+
     def runtime_table(self, tier, seed):
         import builtins
         yp0 = impl.YP()
@@ -326,37 +363,11 @@ class C12(Prop):
             for arity in range(4):
                 if (name, arity) in legit or (name in ('p', 'q') and arity in (1,)):
                     continue
-                called = []
-                yp = impl.BudgetYP(200)
-                yp.load_script_from_string(impl.compile_text('p(a).\nq(X) :- p(X).\n'))
-                yp.assert_fact(yp.atom('fact'), [yp.atom('k')])
-                for key in list(yp.eval_context):
-                    if key in API_CALLABLES and key != 'query' and key != 'match_dynamic':
-                        orig = yp.eval_context[key]
-                        yp.eval_context[key] = (lambda o, k: (lambda *a, **kw: (called.append(k), o(*a, **kw))[1]))(orig, key)
-                yp.eval_context['canary'] = lambda *a, **k: (called.append('canary'), iter(()))[1]
-                ctx_before = dict(yp.eval_context)
-                facts_before = {k: len(v) for k, v in yp._predicates_store.items()}
                 case = {'query': name, 'arity': arity}
-                args = [yp.atom('k') if i == 0 else yp.variable() for i in range(arity)]
-                try:
-                    answers = 0
-                    for _ in yp.query(name, args):
-                        answers += 1
-                        if answers > 3:
-                            break
-                except Exception as e:      # noqa
-                    out.append((case, FAIL('runtime-query-raises:' + type(e).__name__, {'query': '%r/%d' % (name, arity), 'error': '%s: %s' % (type(e).__name__, e)})))
-                    continue
-                n_checked += 1
-                if answers:
-                    out.append((case, FAIL('runtime-query-has-answers', {'query': '%r/%d' % (name, arity), 'answers': answers})))
-                elif called:
-                    out.append((case, FAIL('runtime-query-reached-api', {'query': '%r/%d' % (name, arity), 'called': called[:5]})))
-                elif dict(yp.eval_context) != ctx_before or {k: len(v) for k, v in yp._predicates_store.items()} != facts_before:
-                    out.append((case, FAIL('runtime-query-changed-engine-state', {'query': '%r/%d' % (name, arity)})))
-                else:
-                    out.append((case, OK(name in yp0.eval_context or name in dir(yp0), ['runtime-table'])))
+                o = self.decide_runtime(case, yp0)
+                if not o.signature.startswith('runtime-query-raises'):
+                    n_checked += 1
+                out.append((case, o))
         self.table_size = n_checked
         return out
 
